@@ -210,6 +210,34 @@ pub fn oracle_c04(t: &Topo, s: &Snap, checks: &mut u64) -> Fails {
             }
         }
     }
+    // state-based mutual exclusion, independent of the pass times (a head-on authorisation shows in the plan only as
+    // an infinite entry time): in a state in which every train stands at its fixed position (after a completed move and
+    // at the end) no two different trains may hold OPEN authorities -- tail not yet out -- on a link and on its flip or
+    // on a link declared mutually exclusive with it
+    if s.phase == 0 || s.phase == 3 {
+        let open = |l: usize| -> Vec<usize> { s.auths.get(l).map(|a| a.iter().filter(|x| x.0 != 0 && x.1[5].is_finite()).map(|x| x.0).collect()).unwrap_or_default() };
+        for l in 1..links.len().min(s.auths.len()) {
+            let here = open(l);
+            if here.is_empty() {
+                continue;
+            }
+            let mut others: Vec<(usize, &str)> = vec![(links[l].idx_flip.idx(), "its flip")];
+            for k in &links[l].link_idxs_lockout {
+                others.push((k.idx(), "locked-out link"));
+            }
+            for (o, what) in others {
+                if o == 0 || o <= l && what == "its flip" {
+                    continue;
+                }
+                *checks += 1;
+                for b in open(o) {
+                    if let Some(a) = here.iter().find(|a| **a != b) {
+                        f.push((format!("authorities-open-on-conflicting-segments@dispatch-state:{phase}"), format!("train {a} holds an open authority on link {l} while train {b} holds one on {what} {o}")));
+                    }
+                }
+            }
+        }
+    }
     f.sort_by(|a, b| a.0.cmp(&b.0));
     f.dedup_by(|a, b| a.0 == b.0);
     f
